@@ -251,6 +251,43 @@ def validate_events(work, results):
     return rejected
 
 
+def shutdown_stage(work):
+    """Beyond the listed properties (NOT part of the C08 verdict): server shutdown seen from one connection, ConnShutdown.tla.
+    TLC: what holds, and the two named deviations (D22: the departure path is skipped, D23: Handle waits for a client that
+    stays silent) must be refuted; then the behaviours are replayed on the real server (op `shutdown` = the parent
+    context of every handler.Handle is cancelled) and compared with the specification's predictions.  A disagreement means
+    the shutdown model is out of date; it is recorded in the evidence, it is not a violation of any listed property."""
+    out = dict(spec="ConnShutdown.tla", tlc=[], replays=[])
+    base = "SPECIFICATION SSpec\nCONSTANTS\n  K = 2\n  Q = 2\n  MaxFrames = 3\n  Blocking = FALSE\n  Drain = TRUE\nCHECK_DEADLOCK FALSE\n"
+    for name, body, refuted in (("holds", "INVARIANTS S_AtMostOnce S_NeverStuck S_ReturnedMeansDisconnectedUnlessShut\n"
+                                          "PROPERTIES S_NoDepartureAfterShutdown S_ReturnsOnceClientActs\n", False),
+                                ("D22_departure_skipped", "INVARIANTS S_ReturnedMeansDisconnected\n", True),
+                                ("D23_waits_for_a_silent_client", "PROPERTIES S_ShutdownReturns\n", True)):
+        r = work.tlc("connshutdown", "ConnShutdown", base + body, workers=2, timeout=300, dump=False)
+        log = open(r["log"]).read()
+        bad = ("violated" in r) or ("is violated" in log) or ("was violated" in log) or ("were violated" in log)
+        out["tlc"].append(dict(config=name, distinct=r.get("distinct", 0), expected_refuted=refuted, refuted=bad,
+                               as_expected=(bad == refuted) and not r.get("timeout") and "error" not in r))
+    pre = [{"op": "dial", "c": 1}, {"op": "req", "c": 1, "req": {"k": "Join", "rid": 1, "sid": 0, "ts": 1}}, {"op": "barrier", "c": 1},
+           {"op": "dial", "c": 2}, {"op": "req", "c": 2, "req": {"k": "Join", "rid": 2, "sid": 1, "ts": 2}}, {"op": "barrier", "c": 2},
+           {"op": "shutdown"}, {"op": "waitreturn", "c": 1, "ms": 600}]
+    scs = [dict(sid="shutdown_silent_then_close", config={"mods": []}, ops=pre + [{"op": "close", "c": 1}, {"op": "waitreturn", "c": 1, "ms": 5000}]),
+           dict(sid="shutdown_then_a_frame", config={"mods": []},
+                ops=pre + [{"op": "req", "c": 1, "req": {"k": "Custom", "len": 5, "dig": 1, "to": [], "ts": 5}}, {"op": "waitreturn", "c": 1, "ms": 5000}])]
+    pin, pout = work.path("l2", "shutdown_in.ndjson"), work.path("l2", "shutdown_out.ndjson")
+    write_ndjson(pin, scs)
+    work.run_harness(["l2", "-in", pin, "-out", pout], timeout=300)
+    for sc, r in zip(scs, read_ndjson(pout)):
+        waits = [x.get("ok") for x in r["results"] if x.get("op") == "waitreturn"]
+        ev1 = [e["ev"] for e in r["events"] if e["conn"] == 1]
+        obs = dict(returned_while_client_silent=waits[0] if waits else None, returned_after_client_acted=waits[1] if len(waits) > 1 else None,
+                   departure_ran="disc" in ev1)
+        pred = dict(returned_while_client_silent=False, returned_after_client_acted=True, departure_ran=False)
+        out["replays"].append(dict(scenario=sc["sid"], predicted=pred, observed=obs, agrees=(obs == pred)))
+    out["agrees"] = all(t["as_expected"] for t in out["tlc"]) and all(x["agrees"] for x in out["replays"])
+    return out
+
+
 def run(work, tier, replay=None):
     global TS
     TS = time_scale()
@@ -460,6 +497,13 @@ def run(work, tier, replay=None):
                     connlife_runs=mc_runs, unrepaired_designs_refuted=(leads if not replay else []),
                     samples=[dict(scenario=scs[0]["sid"], ops=scs[0]["ops"][-6:], events=results[scs[0]["sid"]]["events"][-8:])],
                     problems=[dict(sid=s["sid"], what=b) for s, b in problems][:20])
+    if not replay:
+        # beyond the listed properties: server shutdown (never part of the verdict)
+        try:
+            coverage["beyond_properties_server_shutdown"] = shutdown_stage(work)
+            work.log("ConnShutdown (beyond the listed properties): specification and server agree: %s" % coverage["beyond_properties_server_shutdown"]["agrees"])
+        except Exception as e:      # noqa: a failure of this stage is recorded, nothing more
+            coverage["beyond_properties_server_shutdown"] = dict(error=str(e)[:300])
     write_evidence(work, "model_checking", coverage,
                    ["'all byte sequences' is an input space: the specification contributes the frame classes (decodable with/without core handler, junk) and the oracle; bytes inside a class are seeded samples",
                     "real time: idle timeout 250 ms, frames 2 ms; a wedge is reported only when a handler has not returned 3 s after every client is gone and the goroutine profile still shows it",
